@@ -23,11 +23,21 @@
    The value obtained by name is [option cell]: [None] stands for the list [None], the
    marker WBNav.name substitutes when the row has no cell at that position.
    name_cleaner is the C17 model ([NameCleaner.clean]); its result (the anchor) is not used
-   by WBNav.name, which looks properties up by key, but a raise would escape from header. *)
+   by WBNav.name, which looks properties up by key, but a raise would escape from header.
+
+   The RULES of that code are not written here: they are the definitions of Gen/HeaderRowParams.v, read from
+   the source on every run by harness/t1_workbook.py (which keyword each property gets and from which
+   expression, the start of enumerate, what body() does, which iterator body() is handed, how the loaded
+   schema is bound, what set_schema installs, how WBNav.name finds the column and what it substitutes for a
+   missing cell, how Row.values walks the schema, META_SCHEMA).  The functions below interpret them, so an
+   edit of a rule changes this model and the lemmas of Proofs/HeaderRowP.v that state the rules stop
+   compiling.  The interpretation is exact for the values the unchanged source has; for other values it
+   follows Python as far as the comment at each function says. *)
 From Coq Require Import NArith List Bool Arith.
 Import ListNotations.
 Require Import SR.Base.Res.
 Require SR.Model.NameCleaner.
+Require Export SR.Gen.HeaderRowParams.
 
 Definition key := list N.
 
@@ -69,49 +79,188 @@ Definition anchor_of (s : key) : res key :=
   | None => Err OtherError
   end.
 
+(* ---- the expressions of the two comprehensions (Gen/HeaderRowParams.v [expr]) ----
+   A value is a cell or the absent marker ([V_cell]: what row.name(k).value() or the loop item gives), a str
+   built by str() / name_cleaner() / a literal ([V_text]), or an int ([V_int]). *)
+Inductive hval := V_cell (c : option cell) | V_text (s : key) | V_int (n : nat).
+
+(* the loop item (a heading; None in load(), whose item is the Row), the enumerate counter, row.name(k).value() *)
+Record env := mk_env { en_item : option cell; en_count : nat; en_field : key -> res (option cell) }.
+
+Definition k_marker_repr : key := [91; 78; 111; 110; 101; 93]%N.      (* str([None]) *)
+
+(* str(v); the translator refuses str() of a number, so [V_int] does not occur here *)
+Definition str_val (v : hval) : key :=
+  match v with
+  | V_cell (Some c) => str_of c
+  | V_cell None => k_marker_repr
+  | V_text s => s
+  | V_int _ => []
+  end.
+
+Fixpoint eval (en : env) (e : expr) : res hval :=
+  match e with
+  | E_item => match en_item en with Some c => Ok (V_cell (Some c)) | None => Err OtherError end
+  | E_count => Ok (V_int (en_count en))
+  | E_str e' => bind (eval en e') (fun v => Ok (V_text (str_val v)))
+  | E_clean e' =>
+      (* name_cleaner of anything but a str raises TypeError (re.match): None, a number, the [None] marker *)
+      bind (eval en e') (fun v =>
+        match v with
+        | V_cell (Some (Txt t)) | V_text t => bind (anchor_of t) (fun a => Ok (V_text a))
+        | _ => Err TypeError
+        end)
+  | E_text s => Ok (V_text s)
+  | E_int n => Ok (V_int n)
+  | E_field k => bind (en_field en k) (fun c => Ok (V_cell c))
+  end.
+
+(* the keywords of one property, evaluated in the order they are written *)
+Fixpoint eval_props (en : env) (ps : list (key * expr)) : res (list (key * hval)) :=
+  match ps with
+  | [] => Ok []
+  | (k, e) :: t => bind (eval en e) (fun v => bind (eval_props en t) (fun vs => Ok ((k, v) :: vs)))
+  end.
+
+(* the dict key: a str; the [None] marker is a list, unhashable (TypeError); another object is kept under its
+   str() (an approximation: from_json would carry the object itself); a number is refused by the translator *)
+Definition key_of_val (v : hval) : res key :=
+  match v with
+  | V_text s => Ok s
+  | V_cell (Some (Txt s)) => Ok s
+  | V_cell (Some (Obj _ r)) => Ok r
+  | V_cell None => Err TypeError
+  | V_int _ => Err OtherError
+  end.
+
+Fixpoint lookup_val (vs : list (key * hval)) (k : key) : option hval :=
+  match vs with
+  | [] => None
+  | (k', v) :: t => if key_eqb k' k then Some v else lookup_val t k
+  end.
+
+(* the attribute of a property that WBNav.name reads ([nav_pos_attr]), when it is an int *)
+Definition pos_attr (vs : list (key * hval)) : option nat :=
+  match lookup_val vs nav_pos_attr with Some (V_int n) => Some n | _ => None end.
+
+(* one item KEY: {keywords} of a comprehension: Python evaluates the key expression, then the value, then stores *)
+Definition comp_item (en : env) (k : expr) (ps : list (key * expr)) : res entry :=
+  bind (eval en k) (fun kv =>
+  bind (eval_props en ps) (fun vs =>
+  bind (key_of_val kv) (fun key => Ok (mk_entry key (pos_attr vs))))).
+
 (* ---- HeadingRowSchemaLoader.header: the items of the comprehension, enumerate from n ---- *)
+Definition header_item (n : nat) (c : cell) : res entry :=
+  comp_item (mk_env (Some c) n (fun _ => Err OtherError)) hdr_key hdr_props.
+
 Fixpoint header_entries (n : nat) (first : row) : res (list entry) :=
   match first with
   | [] => Ok []
   | c :: t =>
-      bind (anchor_of (str_of c)) (fun _ =>
-      bind (header_entries (S n) t) (fun es =>
-      Ok (mk_entry (str_of c) (Some n) :: es)))
+      bind (header_item n c) (fun e =>
+      bind (header_entries (S n) t) (fun es => Ok (e :: es)))
   end.
 
 Definition header_schema (first : row) : res schema :=
-  bind (header_entries 0 first) (fun es => Ok (dict_of es)).
+  bind (header_entries hdr_enum_start first) (fun es => Ok (dict_of es)).
 
 Inductive loader := NoLoader | HeadingRow.
+
+Definition exn_of_code (c : N) : exn :=
+  if (c =? 1)%N then ValueError else if (c =? 2)%N then TypeError else if (c =? 3)%N then IndexError
+  else if (c =? 4)%N then KeyError else if (c =? 5)%N then RuntimeError else if (c =? 6)%N then NotImplementedError
+  else if (c =? 10)%N then AttributeError else if (c =? 11)%N then StopIter else if (c =? 12)%N then AssertionError
+  else OtherError.
 
 (* loader.header(it): the JSON schema built (None = no schema) and what is left in the iterator *)
 Definition header (l : loader) (src : sheet) : res (option schema * sheet) :=
   match l with
-  | NoLoader => Ok (None, src)
+  | NoLoader => Ok (None, src)                             (* SchemaLoader.header: return None *)
   | HeadingRow =>
       match src with
-      | [] => Ok (None, [])                               (* StopIteration caught *)
+      | [] => match hdr_on_empty with                      (* next(source) raised StopIteration *)
+              | None => Ok (None, [])
+              | Some c => Err (exn_of_code c)
+              end
       | first :: rest => bind (header_schema first) (fun s => Ok (Some s, rest))
       end
   end.
 
-(* loader.body(it): neither loader filters *)
-Definition body (l : loader) (src : sheet) : sheet := src.
+(* ---- loader.body(it) ----
+   truthiness of a cell: a str is falsy when empty; of another object only the tag and the str() are known:
+   None (tag 0), False, 0, 0.0 are falsy *)
+Definition cell_truthy (c : cell) : bool :=
+  match c with
+  | Txt s => match s with [] => false | _ => true end
+  | Obj id r =>
+      negb (N.eqb id 0)
+      && negb (key_eqb r [70; 97; 108; 115; 101]%N) && negb (key_eqb r [48]%N)
+      && negb (key_eqb r [48; 46; 48]%N) && negb (key_eqb r [45; 48; 46; 48]%N)
+  end.
+
+(* c is not None and c != '' *)
+Definition cell_nonblank (c : cell) : bool :=
+  match c with
+  | Txt s => match s with [] => false | _ => true end
+  | Obj id _ => negb (N.eqb id 0)
+  end.
+
+Definition keep_row (p : body_pred) (r : row) : bool :=
+  match p with
+  | P_any_truthy => existsb cell_truthy r
+  | P_any_nonblank => existsb cell_nonblank r
+  | P_nonempty => match r with [] => false | _ => true end
+  end.
+
+(* [keep p x]: does the condition p of a filtering body() hold for the instance x *)
+Definition body_rows {I} (keep : body_pred -> I -> bool) (k : body_kind) (src : list I) : list I :=
+  match k with
+  | B_source => src
+  | B_filter p => filter (keep p) src
+  end.
+
+Definition body_kind_of (l : loader) : body_kind :=
+  match l with NoLoader => body_base | HeadingRow => body_heading end.
+
+Definition body (l : loader) (src : sheet) : sheet := body_rows keep_row (body_kind_of l) src.
+
+(* Sheet.row_iter, for instances of any type: [hdr] = loader.header, [bk] = what loader.body does,
+   [keep p x] = does the condition p hold for the instance x.
+     json_schema = self.loader.header(it)
+     if json_schema: self.schema = from_json(json_schema)     (ri_guard G_truthy; a schema dict is never empty, so
+                                                                truthy.  G_always: unguarded, from_json(None) raises.
+                                                                G_stop: without a schema from header the generator returns)
+     for instance in self.loader.body(it or a fresh iterator): (ri_same_iterator)
+         yield Row(self, instance)                             (ri_rows: B_source = for every instance,
+                                                                B_filter p = only for the instances with p)
+   Row.__init__ reads sheet.schema: AttributeError when none was ever bound.  Result: the schema bound to the
+   sheet afterwards and the instances of the rows delivered, one Row each. *)
+Definition sheet_row_iter {S I} (keep : body_pred -> I -> bool) (hdr : list I -> res (option S * list I))
+  (bk : body_kind) (preset : option S) (src : list I) : res (option S * list I) :=
+  bind (hdr src) (fun hr =>
+  bind (match fst hr, ri_guard with
+        | Some s, _ => Ok (Some s, true)
+        | None, G_truthy => Ok (preset, true)
+        | None, G_always => Err TypeError
+        | None, G_stop => Ok (preset, false)
+        end) (fun sg =>
+    let rows := if snd sg
+                then body_rows keep ri_rows (body_rows keep bk (if ri_same_iterator then snd hr else src))
+                else [] in
+    match rows, fst sg with
+    | _ :: _, None => Err AttributeError                   (* Row.__init__: sheet.schema *)
+    | _, sch => Ok (sch, rows)
+    end)).
 
 (* list(sheet.rows()): the schema bound to the sheet afterwards and the instances of the rows
    delivered.  [preset] = the schema given to set_schema beforehand, if any. *)
 Definition row_iter (l : loader) (preset : option schema) (src : sheet) : res (option schema * sheet) :=
-  bind (header l src) (fun hr =>
-    let sch := match fst hr with Some s => Some s | None => preset end in
-    let rows := body l (snd hr) in
-    match rows, sch with
-    | _ :: _, None => Err AttributeError                   (* Row.__init__: sheet.schema *)
-    | _, _ => Ok (sch, rows)
-    end).
+  sheet_row_iter keep_row (header l) (body_kind_of l) preset src.
 
 (* ---- binding calls on ONE Sheet object, before rows() ----
    Sheet.__init__        loader = SchemaLoader(), no schema attribute
-   Sheet.set_schema(s)   schema = s AND loader = SchemaLoader()  (the reset that assures all rows are processed)
+   Sheet.set_schema(s)   schema = s AND, when [set_schema_resets_loader], loader = SchemaLoader()
+                         (the reset that assures all rows are processed)
    Sheet.set_schema_loader(l)   loader = l, schema untouched
    The state is (loader, bound schema); rows() then runs row_iter from the final state. *)
 Inductive binding := SetSchema (s : schema) | SetLoader (l : loader).
@@ -120,7 +269,7 @@ Definition init_state : sheet_state := (NoLoader, None).
 
 Definition bind_step (st : sheet_state) (b : binding) : sheet_state :=
   match b with
-  | SetSchema s => (NoLoader, Some s)
+  | SetSchema s => ((if set_schema_resets_loader then NoLoader else fst st), Some s)
   | SetLoader l => (l, snd st)
   end.
 
@@ -141,14 +290,32 @@ Fixpoint key_index (ks : list key) (k : key) : nat :=
   | x :: t => if key_eqb x k then 0 else S (key_index t k)
   end.
 
+(* the column WBNav.name reads for property e of schema s, asked for under the key k: the position attribute
+   when the test [nav_pos_test] accepts it (PT_in: present; PT_truthy: present and not 0), else the index of k *)
+Definition position_of (s : schema) (k : key) (e : entry) : nat :=
+  match nav_pos_test, e_pos e with
+  | PT_in, Some p => p
+  | PT_truthy, Some (S p) => S p
+  | _, _ => key_index (keys s) k
+  end.
+
+Definition none_obj : cell := Obj 0 [78; 111; 110; 101]%N.
+
+(* what WBNav.name gives when instance[position] raises IndexError *)
+Definition absent_result : res (option cell) :=
+  match nav_absent with
+  | A_list_none => Ok None                                 (* a navigator over the list [None] *)
+  | A_none => Ok (Some none_obj)                           (* a navigator over None *)
+  | A_raise => Err IndexError
+  end.
+
 Definition nav_name (s : schema) (k : key) (r : row) : res (option cell) :=
   match find_entry s k with
   | None => Err KeyError
   | Some e =>
-      let position := match e_pos e with Some p => p | None => key_index (keys s) k end in
-      match nth_error r position with
+      match nth_error r (position_of s k e) with
       | Some c => Ok (Some c)
-      | None => Ok None                                    (* except IndexError: [None] *)
+      | None => absent_result
       end
   end.
 
@@ -160,31 +327,35 @@ Fixpoint collect {T} (l : list (res T)) : res (list T) :=
 
 (* Row.values() *)
 Definition values (s : schema) (r : row) : res (list (option cell)) :=
-  collect (map (fun k => nav_name s k r) (keys s)).
+  if values_per_property
+  then collect (map (fun k => nav_name s k r) (keys s))
+  else Ok (map Some r).
 
 (* ---- ExternalSchemaLoader ---- *)
 Definition k_name : key := [110; 97; 109; 101]%N.
 Definition k_description : key := [100; 101; 115; 99; 114; 105; 112; 116; 105; 111; 110]%N.
 Definition k_dataType : key := [100; 97; 116; 97; 84; 121; 112; 101]%N.
 
+(* the keyword under which a schema document declares a column *)
+Definition k_position : key := [112; 111; 115; 105; 116; 105; 111; 110]%N.
+
+(* the position attribute WBNav.name will find on a property written with the integer keywords [ints] *)
+Fixpoint int_attr (ints : list (key * nat)) : option nat :=
+  match ints with
+  | [] => None
+  | (k, v) :: t => if key_eqb k nav_pos_attr then Some v else int_attr t
+  end.
+
 (* ExternalSchemaLoader.META_SCHEMA *)
 Definition meta_schema : schema :=
-  [mk_entry k_name (Some 0); mk_entry k_description (Some 1); mk_entry k_dataType (Some 2)].
+  dict_of (map (fun p => mk_entry (fst p) (int_attr (snd p))) meta_properties).
 
-(* one item of the comprehension in load().  The key expression comes first (KeyError when the
-   sheet's schema has no 'name'); name_cleaner of anything but a str raises TypeError (the
-   [None] marker, None, a number), and the [None] marker is unhashable as well; then the
-   description and dataType look-ups, whose values are stored as they are. *)
+(* one item of the comprehension in load() ([ext_key], [ext_props]).  With the unchanged source: the key
+   expression row.name('name').value() comes first (KeyError when the sheet's schema has no 'name');
+   name_cleaner of anything but a str raises TypeError (the [None] marker, None, a number), and the [None]
+   marker is unhashable as well; then the description and dataType look-ups, whose values are stored as they are. *)
 Definition ext_entry (s : schema) (n : nat) (r : row) : res entry :=
-  bind (nav_name s k_name r) (fun v =>
-    match v with
-    | Some (Txt t) =>
-        bind (anchor_of t) (fun _ =>
-        bind (nav_name s k_description r) (fun _ =>
-        bind (nav_name s k_dataType r) (fun _ =>
-        Ok (mk_entry t (Some n)))))
-    | _ => Err TypeError
-    end).
+  comp_item (mk_env None n (fun k => nav_name s k r)) ext_key ext_props.
 
 Fixpoint ext_entries (s : schema) (n : nat) (rows : sheet) : res (list entry) :=
   match rows with
@@ -199,7 +370,7 @@ Definition ext_load (l : loader) (preset : option schema) (meta : sheet) : res s
   bind (row_iter l preset meta) (fun sr =>
     match fst sr with
     | None => Ok (dict_of [])                              (* no schema means no rows *)
-    | Some s => bind (ext_entries s 0 (snd sr)) (fun es => Ok (dict_of es))
+    | Some s => bind (ext_entries s ext_enum_start (snd sr)) (fun es => Ok (dict_of es))
     end).
 
 (* the documented protocol (tests/test_workbook.py, docs): set_schema(from_json(META_SCHEMA)),
@@ -213,4 +384,4 @@ Definition hand_schema (names : list key) : schema :=
 (* ... and one whose properties each carry an explicit position keyword,
    {name: {type: string, position: p}, ...}, in any order and for any subset of the columns *)
 Definition hand_schema_at (decl : list (key * nat)) : schema :=
-  dict_of (map (fun kp => mk_entry (fst kp) (Some (snd kp))) decl).
+  dict_of (map (fun kp => mk_entry (fst kp) (int_attr [(k_position, snd kp)])) decl).
